@@ -163,3 +163,35 @@ def clef_in_force(doc, a=None):
                 cur = c['t']
             clef[(i, k)] = cur
     return clef
+
+
+# ---- an Exporter object with a past --------------------------------------------------------------------------------
+_PRIMER_DOCS = []
+
+
+def primed_exporter():
+    """a NEW kernpy.Exporter that has already exported a few fixed documents with assorted options (other spine
+    counts and types, filters, spine selections, excerpts, all encodings).  Whatever it exports afterwards must equal
+    what kernpy.dumps (a fresh Exporter per call) gives: an Exporter must not remember other documents or options."""
+    if not _PRIMER_DOCS:
+        for t in ('**kern\t**text\t**kern\n*clefF4\t*\t*clefG2\n*k[f#]\t*\t*k[f#]\n=1\t=1\t=1\n4.C;L\tla\t8e-J 8g\n*^\t*\t*\n4D\t4F#\tle\t2rr\n*v\t*v\t*\t*\n=2\t=2\t=2\n2E\t.\t4a\n==\t==\t==\n*-\t*-\t*-\n',
+                  '**dynam\t**kern\n*\t*clefC3\n*\t*M3/4\nf\t4cc#(\n=1\t=1\np\t4dd)\n=2\t=2\n.\t2r\n*-\t*-\n',
+                  '**kern\n*clefG2\n=1\n4c\n=2\n4d\n=3\n4e\n*-\n'):
+            d, _ = kp.loads(t)
+            _PRIMER_DOCS.append(d)
+    ex = kp.Exporter()
+    G_ = kp.core.generic.Generic
+    for d in _PRIMER_DOCS:
+        for kw in ({}, {'kern_type': E.eKern}, {'kern_type': E.bEkern, 'exclude': [TC.DURATION]}, {'spine_ids': [0]},
+                   {'include': [TC.CORE, TC.HEADER], 'kern_type': E.bKern}, {'from_measure': 1, 'to_measure': 1},
+                   {'from_measure': 2, 'kern_type': E.eKern}, {'kern_type': E.agnosticKern}, {'kern_type': E.agnosticExtendedKern, 'spine_types': ['**kern']}):
+            try:
+                ex.export_string(d, G_.parse_options_to_ExportOptions(**kw))
+            except Exception:  # noqa  (what the primers export is not under test)
+                pass
+    return ex
+
+
+def via_primed(ex, doc, **kw):
+    okw = {('kern_type' if k == 'encoding' else k): v for k, v in kw.items()}
+    return ex.export_string(doc, kp.core.generic.Generic.parse_options_to_ExportOptions(**okw))
